@@ -36,6 +36,8 @@ class ExactAlgorithm(ExactAlgorithmBase):
         """
         super().__init__(optimize)
         try:
+            # the constructor of ExactAlgorithmCplex does not use cplex: the import must be checked here
+            import cplex  # pylint: disable=import-outside-toplevel,unused-import
             self._alg = ExactAlgorithmCplex(optimize=optimize)
         except ModuleNotFoundError:
             self._alg = ExactAlgorithmPulp()
